@@ -308,8 +308,8 @@ def book_rows(rng, spec, nh):
         if i in missing:
             continue
         for ins in spec.instruments:
-            if rng.random() < 0.04:
-                continue  # an instrument missing from one hour's book
+            if rng.random() < 0.04 and i > 0:
+                continue  # an instrument missing from one hour's book (the first hour is complete: the price frame starts there)
             K = ins["strike"]
             intrinsic = max(0.0, (under - K) / under) if ins["kind"] == "CALL" else max(0.0, (K - under) / under)
             mark = float(Decimal(str(intrinsic + rng.uniform(0.002, 0.06))).quantize(Decimal("0.000001")))
